@@ -45,6 +45,9 @@ CLAIMED.update({
  "C20": C("property-based testing: seven generated-input sub-checks; oracles = subset enumeration (cliques), validity predicates (colouring, feedback arcs), Warshall closure/reduction, DFS path enumeration, Dreyfus-Wagner optimum + tree predicate (Steiner), algebraic laws and relabeling equivariance (PageRank)",
           "maximal_cliques, dsatur_coloring, greedy_feedback_arc_set, dag_to_toposorted_adjacency_list + dag_transitive_reduction_closure, all_simple_paths, steiner_tree and page_rank each compared with its defining specification on random graphs of its documented domain, several storage types incl. vacancies.",
           "the brute-force oracles in props/c20.rs", "DESIGN.md section 5, C20"),
+ "C01": C("stateful (model-based) property-based testing: generated operation histories, reference multigraph written from the rustdoc, full observation compared after every step",
+          "Operation histories over Graph for both edge types and four index widths (incl. histories that fill the u8 index space); every public query and iterator, detached walkers and the raw linked lists are compared with a reference multigraph after every operation.",
+          "the reference model and observation comparison in harness/src/gmodel.rs and props/c01.rs", "DESIGN.md section 5, C01"),
 })
 PLANNED = {}
 
